@@ -339,6 +339,14 @@ class C12(Prop):
                                           "send u3 q~", "cycle"])
         mk("empty-and-partial", conns(2) + ["send u1 ~~a~", "send u2 ab", "cycle", "cycle", "send u2 c~~", "cycle", "cycle",
                                             "cycle", "cycle"])
+        # a connect and disconnects of other users inside one process_io (the harness reports ready descriptors in a
+        # fixed order: listening port, then users in slot order): the new user takes the first free slot BEFORE the
+        # slots of the leaving users are freed
+        mk("connect-and-disconnect-one-io", conns(4) + ["close u2", "conn", "send u3 a~", "cycle", "send u5 x~", "cycle",
+                                                        "close u1", "close u4", "conn", "conn", "cycle", "cycle", "cycle",
+                                                        "send u6 y~", "send u7 z~", "send u5 w~", "cycle", "cycle"])
+        mk("disconnect-with-data-and-connect", conns(3) + ["send u1 a~b~", "close u1", "conn", "send u2 x~", "cycle", "cycle",
+                                                           "conn", "close u2", "cycle", "send u4 q~", "send u5 r~", "cycle", "cycle"])
         mk("no-cycle", ["conn", "send u1 a~"])
         mk("idle-cycles", ["cycle", "cycle", "conn", "cycle", "cycle", "send u1 a~", "cycle"])
         mk("everybody-kicked", ["script u1 =k kick,u2;kick,u3;kick,u1"] + conns(3) +
@@ -425,14 +433,14 @@ class C12(Prop):
                     sent[u] = sent.get(u, 0) + cost
                     rxp.add(u)
                     body.append("send u%d %s" % (u, d))
-                elif k == "close" and nacc > 0 and nconn == nacc:
+                elif k == "close" and nacc > 0:
                     u = rng.range(1, nacc)
                     if u in closed:
                         continue
                     closed.add(u)
                     eof[u] = True
                     body.append("close u%d" % u)
-                elif k == "conn" and not eof and nconn < nmax:
+                elif k == "conn" and nconn < nmax:
                     nconn += 1
                     body.append("conn")
             for _ in range(rng.weighted([(1, 8), (2, 4), (3, 2), (5, 1)])):
@@ -570,9 +578,11 @@ class C12(Prop):
 
     def histogram(self, cases, impl):
         h = {"cycles": 0, "aborted_cycles": 0, "buffered_cmds": 0, "efun_cmds": 0, "kicks": 0, "drops": 0, "getchar": 0, "input_to": 0,
-             "cycles_with_3plus_served": 0, "cycles_leaving_backlog": 0, "max_users_100": 0, "closes": 0, "logons": 0}
+             "cycles_with_3plus_served": 0, "cycles_leaving_backlog": 0, "max_users_100": 0, "closes": 0, "logons": 0,
+             "connect_and_disconnect_in_one_io": 0}
         for c in cases:
             served = 0
+            closed_since_end = False
             for l in impl.get(c.id, []):
                 t = l.split()
                 if not t:
@@ -597,9 +607,13 @@ class C12(Prop):
                     h["aborted_cycles"] += 1
                 elif t[0] == "close":
                     h["closes"] += 1
+                    closed_since_end = True
                 elif t[0] == "logon":
                     h["logons"] += 1
+                    if closed_since_end:
+                        h["connect_and_disconnect_in_one_io"] += 1
                 elif t[0] == "end":
+                    closed_since_end = False
                     if served >= 3:
                         h["cycles_with_3plus_served"] += 1
                     if any(x.split(":")[-1].isdigit() and int(x.split(":")[-1]) & 128 for x in t[3:]):
